@@ -65,7 +65,7 @@ fn source_strategy(tier: Tier) -> BoxedStrategy<Source> {
     let synth = (
         prop_oneof![Just(1u32), Just(2u32)],
         proptest::collection::vec(item(), 0..40),
-        proptest::collection::vec(any::<u8>(), 0..3),
+        proptest::collection::vec(any::<u8>(), 0..5),
         any::<bool>(),
         prop_oneof![20 => Just(0usize), 1 => Just(300usize), tier.pick(0u32, 1) => Just(4200usize)],
     )
@@ -199,8 +199,9 @@ pub fn build_synth(version: u32, items: &[Item], journal_items: &[u8], plain_met
     }
     // an active journal over some of the extents (a batch that was in flight)
     let mut jext: Vec<(u64, u64)> = journal_items.iter().filter_map(|j| if extents.is_empty() { None } else { Some(extents[(*j as usize * extents.len()) >> 8]) }).collect();
-    jext.sort();
-    jext.dedup();
+    // journal order is allocation order, not sector order: keep the generated order
+    let mut seen = std::collections::HashSet::new();
+    jext.retain(|e| seen.insert(*e));
     if !jext.is_empty() {
         let slot = layout::encode_slot(5, &jext, 2);
         img[B..B + slot.len()].copy_from_slice(&slot);
